@@ -360,6 +360,14 @@ def drive_shape(rec, s, units, fac=None, ids="fresh"):
 
 UNITS = [(1, 1), (2, 3), (0.5, 0.25), (10, 7)]
 # the units are plain numbers: very fine and very coarse grids too
+def typed_units():
+    """multipliers are numbers: exact fractions and numpy scalars are as good as Python ints and floats"""
+    from fractions import Fraction
+    import numpy as np
+
+    return [(Fraction(5, 2), Fraction(1, 3)), (np.int64(3), np.int64(2)), (np.float32(0.5), np.float32(2.0)), (2, Fraction(7, 2)), (np.float64(1.5), 3), (True, 2)]
+
+
 EXTREME_UNITS = [(2 ** -31, 2 ** -31), (2.5e-10, 1), (1, 4e-12), (1e-6, 1e-9), (1e9, 1e12), (2 ** 40, 2 ** -40), (1e-300, 1e300)]
 
 
@@ -391,6 +399,9 @@ def run(rec, cfg):
     for j, s in enumerate(W9.all_shapes_upto(5)):
         if cfg.mine(j):
             drive_shape(rec, s, [EXTREME_UNITS[j % len(EXTREME_UNITS)], EXTREME_UNITS[(j + 3) % len(EXTREME_UNITS)]])
+            tu = typed_units()
+            drive_shape(rec, s, [tu[j % len(tu)], tu[(j + 2) % len(tu)]])
+            rec.arm("layout:typed-units")
             rec.arm("layout:extreme-units")
     # full binary trees up to 15 nodes (7 inner nodes), all of them
     k = 0
